@@ -808,10 +808,11 @@ def _module_level_names(tree: ast.Module) -> T.Dict[str, str]:
     return out
 
 
-def _adapt_for(fd: ast.FunctionDef, home: ast.Module, target: ast.Module, alias: T.Optional[str]) -> T.Optional[ast.FunctionDef]:
+def _adapt_for(fd: ast.FunctionDef, home: ast.Module, target: ast.Module, alias: T.Optional[str], home_name: str = "") -> T.Optional[ast.FunctionDef]:
     """Copy of a helper of module `home` whose free names mean the same thing when evaluated inside module `target`
-    (home-module definitions are qualified with `alias`), or None."""
+    (home-module definitions are qualified with `alias`; without a module alias they are imported by name), or None."""
     import builtins
+    needed: T.List[str] = []
     home_names, target_names = _module_level_names(home), _module_level_names(target)
     local = _stored_names(fd)
     new = copy.deepcopy(fd)
@@ -825,7 +826,11 @@ def _adapt_for(fd: ast.FunctionDef, home: ast.Module, target: ast.Module, alias:
             kind = home_names.get(node.id)
             if kind == "def":
                 if alias is None:
-                    ok = False
+                    want = "import:" + ast.unparse(ast.ImportFrom(module=home_name, names=[ast.alias(name=node.id)], level=1))
+                    if target_names.get(node.id) not in (None, want) or not home_name:
+                        ok = False
+                    elif node.id not in needed:
+                        needed.append(node.id)
                     return node
                 return ast.copy_location(ast.Attribute(value=ast.Name(id=alias, ctx=ast.Load()), attr=node.id, ctx=ast.Load()), node)
             if kind is not None and kind.startswith("import:"):
@@ -835,7 +840,13 @@ def _adapt_for(fd: ast.FunctionDef, home: ast.Module, target: ast.Module, alias:
             ok = False
             return node
     new.body = [Q().visit(b) for b in new.body]
-    return new if ok else None
+    if not ok:
+        return None
+    for name in needed:
+        if target_names.get(name) is None:
+            imp = ast.ImportFrom(module=home_name, names=[ast.alias(name=name)], level=1)
+            target.body.insert(0, ast.fix_missing_locations(imp))
+    return new
 
 
 def normalise_program(trees: T.Dict[str, ast.Module]) -> T.Dict[str, int]:
@@ -858,12 +869,12 @@ def normalise_program(trees: T.Dict[str, ast.Module]) -> T.Dict[str, int]:
                 mods, names = _module_aliases(other.tree)
                 for alias, target in mods.items():
                     if target == m and any(isinstance(c, ast.Attribute) and c.attr == name and isinstance(c.value, ast.Name) and c.value.id == alias for c in ast.walk(other.tree)):
-                        ad = _adapt_for(fd, inl.tree, other.tree, alias)
+                        ad = _adapt_for(fd, inl.tree, other.tree, alias, m)
                         if ad is not None:
                             other.external[(alias, name)] = ad
                 for local, (target, orig) in names.items():
                     if target == m and orig == name:
-                        ad = _adapt_for(fd, inl.tree, other.tree, next((a for a, t in mods.items() if t == m), None))
+                        ad = _adapt_for(fd, inl.tree, other.tree, next((a for a, t in mods.items() if t == m), None), m)
                         if ad is not None:
                             other.external_names[local] = ad
 
